@@ -55,6 +55,13 @@ type dbStep struct {
 	VNil bool    `json:"vnil,omitempty"`
 	Opts *dbOpts `json:"opts,omitempty"` // for reopen
 	Torn int     `json:"torn,omitempty"` // for reopen: 1+n = before Open, a newest WAL file with only n (0..7) bytes of its header is planted
+	// for reopen: before Open a leftover compaction directory is planted whose success marker has a complete file
+	// header but no (1) or a cut (2) record - what a kill while the marker was being written leaves behind
+	TornMarker int `json:"torn_marker,omitempty"`
+	// for putb: the value is handed over in a buffer that the caller keeps per key and refills for the next PutBytes of
+	// that key (the database keeps the slice it is given; a caller that refills it right before the next put of the same
+	// key never shows it a stale value)
+	Scratch bool `json:"scratch,omitempty"`
 	// observations
 	Err      string    `json:"err,omitempty"`
 	Val      []byte    `json:"val,omitempty"`
@@ -112,9 +119,10 @@ func tablesOf(db *simpledb.DB) []tblInfo {
 }
 
 type dbRunner struct {
-	dir  string
-	db   *simpledb.DB
-	opts dbOpts
+	dir     string
+	db      *simpledb.DB
+	opts    dbOpts
+	scratch map[string][]byte
 }
 
 func (r *dbRunner) open(o dbOpts) error {
@@ -146,7 +154,21 @@ func (r *dbRunner) step(s *dbStep) {
 	case "put":
 		s.Err = dbErrName(r.db.Put(string(s.key()), string(s.val())))
 	case "putb":
-		s.Err = dbErrName(r.db.PutBytes(s.key(), s.val()))
+		v := s.val()
+		if s.Scratch && v != nil {
+			if r.scratch == nil {
+				r.scratch = map[string][]byte{}
+			}
+			buf := r.scratch[string(s.key())]
+			if cap(buf) < len(v) {
+				buf = make([]byte, len(v))
+			}
+			buf = buf[:len(v)]
+			copy(buf, v)
+			r.scratch[string(s.key())] = buf
+			v = buf
+		}
+		s.Err = dbErrName(r.db.PutBytes(s.key(), v))
 	case "del":
 		s.Err = dbErrName(r.db.Delete(string(s.key())))
 	case "delb":
@@ -223,6 +245,15 @@ func (r *dbRunner) step(s *dbStep) {
 			}
 			hdr := []byte{4, 0, 0, 0, 1, 0, 0, 0}
 			os.WriteFile(filepath.Join(wd, fmt.Sprintf("%06d.wal", next)), hdr[:s.Torn-1], 0600)
+		}
+		if s.TornMarker > 0 {
+			cd := filepath.Join(r.dir, fmt.Sprintf("sstable_compaction%d", 4242+s.TornMarker))
+			os.MkdirAll(cd, 0700)
+			marker := []byte{4, 0, 0, 0, 0, 0, 0, 0}
+			if s.TornMarker == 2 {
+				marker = append(marker, 0x91, 0x8d, 0x4c, 0x00, 0x20)
+			}
+			os.WriteFile(filepath.Join(cd, "compaction_successful"), marker, 0600)
 		}
 		if err := r.open(o); err != nil {
 			s.Err = "Open:" + err.Error()
